@@ -15,7 +15,7 @@ func runC02(tb ev.TB, p sim.Prog) ev.Result {
 	nt := false
 	obs := func(tb ev.TB, w *sim.World, info *sim.OpInfo) {
 		switch info.Op.Kind {
-		case "append", "join", "rebuild":
+		case "append", "join", "rebuild", "loadtail":
 			sim.MustOK(tb, info)
 		}
 		if info.Src >= 0 {
